@@ -39,6 +39,8 @@ pub struct Trial {
     /// serialised with other settings, introspected, then dropped): what a long-lived process has
     /// behind it when it meets this input — thread-local and address-keyed state, allocator reuse
     pub history: Option<u64>,
+    /// environment variant (index into ENV_VARIANTS) in effect during the trial
+    pub env: Option<u8>,
 }
 
 #[derive(Clone, Debug)]
@@ -78,6 +80,7 @@ impl Case {
                 "heapskew": t.heapskew.map(|k| k.to_string()),
                 "thread": t.thread,
                 "history": t.history.map(|k| k.to_string()),
+                "env": t.env,
             })).collect::<Vec<_>>(),
         })
     }
@@ -103,6 +106,7 @@ impl Case {
                 heapskew: num(&t["heapskew"]),
                 thread: t["thread"].as_bool().unwrap_or(false),
                 history: num(&t["history"]),
+                env: t["env"].as_u64().map(|v| v as u8),
             })
             .collect();
         Ok(Case {
@@ -163,7 +167,7 @@ pub fn amplified(rng: &mut Rng) -> String {
     for i in 0..n {
         let _ = write!(s, "a{i}: Int{} ", if i % 5 == 4 { "!" } else { "" });
     }
-    let _ = writeln!(s, "): Int things: [Thing] u: U }}");
+    let _ = writeln!(s, "): Int things: [Thing] u: U legacy: Int @deprecated older(a: Int @deprecated, b: Int @deprecated(reason: \"b\")): Int }}");
     let _ = writeln!(s, "interface Node {{ id: ID! }}");
     let _ = writeln!(s, "interface Thing {{ name: String label(x: Int): String }}");
     let _ = writeln!(s, "type Mutation {{ m0: Int m1: Int }}");
@@ -648,6 +652,11 @@ pub fn gen_trials(rng: &mut Rng, n: usize) -> Vec<Trial> {
             } else {
                 None
             },
+            env: if rng.chance(1, 4) {
+                Some(1 + rng.below(3) as u8)
+            } else {
+                None
+            },
         });
     }
     trials
@@ -666,10 +675,28 @@ fn run_trial(input: &Input, t: &Trial) -> Result<Vec<(&'static str, String)>, St
         if let Some(seed) = t.history {
             history_work(seed);
         }
+        // environment in effect during the trial (the worker runs one case at a time, on one
+        // thread: nobody else reads or writes the environment meanwhile)
+        let mut saved_env: Vec<(&str, Option<String>)> = vec![];
+        if let Some(v) = t.env {
+            for (k, val) in ENV_VARIANTS[v as usize % ENV_VARIANTS.len()] {
+                saved_env.push((k, std::env::var(k).ok()));
+                match val {
+                    Some(val) => std::env::set_var(k, val),
+                    None => std::env::remove_var(k),
+                }
+            }
+        }
         FileId::__verif_set_next(t.idskew.unwrap_or(3));
         ahash::sim::set_stream(t.rekey);
         let r = std::panic::catch_unwind(std::panic::AssertUnwindSafe(|| bundle(input)));
         ahash::sim::set_stream(None);
+        for (k, old) in saved_env {
+            match old {
+                Some(old) => std::env::set_var(k, old),
+                None => std::env::remove_var(k),
+            }
+        }
         drop(held);
         match r {
             Ok(r) => r,
@@ -714,7 +741,8 @@ fn history_work(seed: u64) {
         for i in 0..n {
             let _ = write!(sdl, "a{i}: Int = {} ", 1_000_000 + i);
         }
-        let _ = write!(sdl, "): Int }} input I {{ ");
+        // a built-in directive redefined with another default: must not outlive this schema
+        let _ = write!(sdl, "): Int gone: Int @deprecated }} directive @deprecated(reason: String = \"gone for good\") on FIELD_DEFINITION | ARGUMENT_DEFINITION | INPUT_FIELD_DEFINITION | ENUM_VALUE input I {{ ");
         for i in 0..n {
             let _ = write!(sdl, "k{i}: String = \"h{i}\" ");
         }
@@ -827,6 +855,9 @@ fn exec_case_here(case: &Case) -> Result<CaseResult, String> {
         if t.history.is_some() {
             add("perturb.history", 1);
         }
+        if t.env.is_some() {
+            add("perturb.env", 1);
+        }
         if violation.is_none() {
             if let Some((stage, what)) = first_difference(&base, &out) {
                 differing = Some(i);
@@ -874,6 +905,9 @@ fn trial_brief(t: &Trial) -> String {
     }
     if t.history.is_some() {
         parts.push("history");
+    }
+    if t.env.is_some() {
+        parts.push("env");
     }
     parts.join("+")
 }
@@ -958,24 +992,44 @@ pub fn digests_main(args: &[String]) -> i32 {
     0
 }
 
+/// Environment variants: the same text must give the same output whatever terminal, colour and
+/// locale settings the process was started with (`Display` output is specified as colourless).
+pub const ENV_VARIANTS: &[&[(&str, Option<&str>)]] = &[
+    &[],
+    &[("TERM", Some("dumb")), ("NO_COLOR", Some("1"))],
+    &[("TERM", Some("xterm-256color")), ("CLICOLOR_FORCE", Some("1")), ("COLORTERM", Some("truecolor")), ("NO_COLOR", None)],
+    &[("TERM", None), ("LANG", Some("C")), ("LC_ALL", Some("tr_TR.UTF-8")), ("TZ", Some("Pacific/Apia")), ("COLUMNS", Some("20"))],
+];
+
+fn apply_env_variant(cmd: &mut Command, variant: usize) {
+    for (k, v) in ENV_VARIANTS[variant % ENV_VARIANTS.len()] {
+        match v {
+            Some(v) => {
+                cmd.env(k, v);
+            }
+            None => {
+                cmd.env_remove(k);
+            }
+        }
+    }
+}
+
 fn process_layer(seed: u64, tier: Tier, units: u64, processes: usize) -> Result<(J, Vec<(Violation, J)>), String> {
     let exe = std::env::current_exe().map_err(|e| e.to_string())?;
     let started = std::time::Instant::now();
     let mut children = vec![];
-    for _ in 0..processes {
-        children.push(
-            Command::new(&exe)
-                .arg("c22-digests")
-                .arg(tier.name())
-                .arg(seed.to_string())
-                .arg("0")
-                .arg(units.to_string())
-                .stdin(Stdio::null())
-                .stdout(Stdio::piped())
-                .stderr(Stdio::null())
-                .spawn()
-                .map_err(|e| e.to_string())?,
-        );
+    for p in 0..processes {
+        let mut cmd = Command::new(&exe);
+        cmd.arg("c22-digests")
+            .arg(tier.name())
+            .arg(seed.to_string())
+            .arg("0")
+            .arg(units.to_string())
+            .stdin(Stdio::null())
+            .stdout(Stdio::piped())
+            .stderr(Stdio::null());
+        apply_env_variant(&mut cmd, p);
+        children.push(cmd.spawn().map_err(|e| e.to_string())?);
     }
     let mut tables: Vec<std::collections::BTreeMap<u64, String>> = vec![];
     for c in children {
@@ -1018,7 +1072,7 @@ fn process_layer(seed: u64, tier: Tier, units: u64, processes: usize) -> Result<
     }
     Ok((
         json!({"process_layer": {"processes": processes, "inputs_compared": compared, "wall_s": started.elapsed().as_secs_f64(),
-               "note": "each process: fresh OS keys for ahash (disarmed ahash-sim) and std RandomState, fresh ASLR, cold lazy statics, 4 threads"}}),
+               "note": "each process: fresh OS keys for ahash (disarmed ahash-sim) and std RandomState, fresh ASLR, cold lazy statics, 4 threads, one of 4 environment variants (TERM / NO_COLOR / CLICOLOR_FORCE / LANG / LC_ALL / TZ / COLUMNS)"}}),
         violations,
     ))
 }
@@ -1031,11 +1085,10 @@ fn replay_process_layer(case: &J) -> Result<Option<Violation>, String> {
     let n = case["processes"].as_u64().unwrap_or(16).min(64);
     let mut first: Option<String> = None;
     for p in 0..n {
-        let out = Command::new(&exe)
-            .arg("c22-one")
-            .stdin(Stdio::piped())
-            .stdout(Stdio::piped())
-            .stderr(Stdio::null())
+        let mut cmd = Command::new(&exe);
+        cmd.arg("c22-one").stdin(Stdio::piped()).stdout(Stdio::piped()).stderr(Stdio::null());
+        apply_env_variant(&mut cmd, p as usize);
+        let out = cmd
             .spawn()
             .and_then(|mut c| {
                 use std::io::Write as _;
@@ -1190,10 +1243,11 @@ impl Property for C22 {
         };
         // simplify the differing trial: drop perturbations one at a time
         if best.trials.len() >= 2 {
-            for which in 0..5 {
+            for which in 0..6 {
                 let mut c = best.clone();
                 let t = &mut c.trials[1];
                 match which {
+                    5 => t.env = None,
                     4 => t.history = None,
                     0 => t.thread = false,
                     1 => t.heapskew = None,
